@@ -168,6 +168,31 @@ func families() []family {
 			build: func(u *gen.Universe, n int) (string, []string) {
 				return chain(u, n, "AND", func(i int, id string) string { return "((" + id + "))" }), short
 			}},
+		{name: "alternating_nest_right", fns: allFns, quick: geo(15, 60, 250, 600), thor: geo(15, 60, 250, 1000, 2500),
+			build: func(u *gen.Universe, n int) (string, []string) {
+				// a1 AND (b1 OR (a2 AND (b2 OR ( ... )))): n alternation levels, only n+1 alternatives
+				e := idAt(u, 0)
+				for i := 1; i <= n; i++ {
+					if i%2 == 1 {
+						e = idAt(u, i) + " OR (" + e + ")"
+					} else {
+						e = idAt(u, i) + " AND (" + e + ")"
+					}
+				}
+				return e, short
+			}},
+		{name: "alternating_nest_left", fns: allFns, quick: geo(15, 60, 250, 600), thor: geo(15, 60, 250, 1000, 2500),
+			build: func(u *gen.Universe, n int) (string, []string) {
+				e := idAt(u, 0)
+				for i := 1; i <= n; i++ {
+					if i%2 == 1 {
+						e = "(" + e + ") OR " + idAt(u, i)
+					} else {
+						e = "(" + e + ") AND " + idAt(u, i)
+					}
+				}
+				return e, short
+			}},
 		{name: "and_of_and_groups", fns: allFns, quick: geo(15, 60, 250, 700), thor: geo(15, 60, 250, 1000, 3000),
 			build: func(u *gen.Universe, n int) (string, []string) {
 				var g []string
